@@ -540,10 +540,13 @@ func (e *daemonEngine) setup() error {
 			e.wire.Write(b)
 			e.wire.WriteByte(0)
 		}
-		if method == MDKGPacket && dir == "req" && len(e.sc.DKGSteps) > 0 && len(e.gossip) < 200 {
+		if method == MDKGPacket && dir == "req" && len(e.sc.DKGSteps) > 0 {
 			g := new(pdkg.GossipPacket)
 			if proto.Unmarshal(b, g) == nil && g.GetDkg() == nil && g.Metadata != nil {
 				e.gossip = append(e.gossip, g)
+				if len(e.gossip) > 300 {
+					e.gossip = append([]*pdkg.GossipPacket(nil), e.gossip[100:]...)
+				}
 			}
 		}
 	}
